@@ -312,7 +312,12 @@ def validate_translation(res, rnd, k=6, pre=None):
     """Serval-style: push concrete inputs through the native function and through the symbolic term.
     Returns (n_compared, mismatches[list]).  Only bit/fp mode.  Outputs that do not reduce to a value (UF libm) are skipped."""
     fn = res.fn; unit = res.unit; n_cmp = 0; bad = []
+    def quiet(v, c):       # SMT-LIB FP has a single NaN: signalling-NaN samples are quietened (libm's fmin/fmax treat sNaN differently from the compiler's inlined minnum)
+        if ct_kind(c) != 'f': return v
+        w = ct_bits(c); mb = 23 if w == 32 else 52; em = ((1 << (w - 1 - mb)) - 1) << mb
+        return v | (1 << (mb - 1)) if (v & em) == em and (v & ((1 << mb) - 1)) != 0 else v
     for tup in sample_inputs(fn, rnd, k):
+        tup = [[quiet(v, c) for v in vals] for (c, n), vals in zip(fn.ins, tup)]
         subst = []
         for terms, vals in zip(res.ins, tup):
             subst += [(t, bv(v, t.size())) for t, v in zip(terms, vals)]
